@@ -1519,7 +1519,7 @@ func (b *Builder) constScalarMapLookup(x *ast.IndexExpr, wantOK bool) []*Term {
 		return nil
 	}
 	mt, ok := v.Type().Underlying().(*types.Map)
-	if !ok || ruleOwnedTables[b.P.typeStr(v.Type())] {
+	if !ok || (ruleOwnedTables[b.P.typeStr(v.Type())] && !b.forceMapChain) {
 		return nil
 	}
 	if kb, ok := mt.Key().Underlying().(*types.Basic); !ok || kb.Info()&(types.IsString|types.IsInteger) == 0 {
@@ -1601,6 +1601,21 @@ func (b *Builder) constScalarMapLookup(x *ast.IndexExpr, wantOK bool) []*Term {
 			return nil
 		}
 		rows = append(rows, row{constTerm(ktv.Value), val})
+	}
+	if b.forceMapChain {
+		// m[k] == c: only the rows whose value is c are tested (each on its own key, so that every
+		// path says which keys it excluded); every other key gives "some other value"
+		if b.forceMapValue == nil || b.forceMapValue.Key() == zero.Key() {
+			return nil
+		}
+		var keep []row
+		for _, r := range rows {
+			if r.v.Key() == b.forceMapValue.Key() {
+				keep = append(keep, r)
+			}
+		}
+		rows = keep
+		zero = konst(`"\x00another value of ` + v.Name() + `"`)
 	}
 	kvv := b.tempVar("mkey", mt.Key())
 	b.assignVar(kvv, b.expr(x.Index), x.Pos())
